@@ -146,6 +146,14 @@ fn body(c: &Case, ch: &Chooser) -> Outcome {
         o.violate("stall", "body never finished although its source was ready");
         return o;
     }
+    // a complete trailers frame whose block is not well-formed header lines: how it is answered
+    // (an error, or a lenient reading) is not constrained — the poll must return and the body end
+    if let Some(r) = &c.raw {
+        if r.len() >= 5 && r[0] == 0x80 && u32::from_be_bytes([r[1], r[2], r[3], r[4]]) as usize == r.len() - 5 {
+            o.nontrivial = true;
+            return o;
+        }
+    }
     // expected
     let msg_bytes: Vec<u8> = c.msgs.iter().flat_map(|(f, p)| wire::encode_frame(*f, p)).collect();
     let malformed = if c.raw.is_some() {
@@ -275,6 +283,20 @@ fn cases(tier: Tier) -> Vec<Case> {
             }
         }
     }
+    // three / four frames of unequal sizes: two chunk ends inside different payloads with whole
+    // frames between them (offsets remembered across polls), every pair of cuts and equal blocks
+    for msgs in [
+        vec![(0u8, vec![1, 2, 3, 4]), (0u8, vec![5, 6]), (0u8, vec![7, 8, 9, 10, 11, 12, 13])],
+        vec![(0u8, vec![1; 6]), (1u8, vec![2]), (0u8, vec![]), (0u8, vec![3; 11])],
+    ] {
+        for tr in trailer_menu().into_iter().take(tier.q(1, 2)) {
+            let base = Case { msgs: msgs.clone(), trailers: tr, space: false, truncate: None, bad_flag: None, free: false, drip: false, raw: None, segments: 1, fixed: None };
+            out.push(base.clone());
+            for block in 2..=tier.q(17usize, 40usize) {
+                out.push(Case { fixed: Some(vec![block]), ..base.clone() });
+            }
+        }
+    }
     // a body that ends inside a frame whose prefix declares (almost) 4 GiB, after 0/1 complete frames
     for lead in [false, true] {
         for declared in [0xffff_fff0u32, 0xffff_fffa, 0xffff_fffb, 0xffff_fffc, 0xffff_ffff, 0x8000_0000, 0x7fff_ffff] {
@@ -292,6 +314,15 @@ fn cases(tier: Tier) -> Vec<Case> {
                     }
                 }
             }
+        }
+    }
+    // trailers blocks with stray CR / LF / NUL bytes, empty lines, no colon, nothing at all
+    for block in [
+        &b"x:1\r\rx:2\r\n"[..], b"\rgrpc-status:0\r\n", b"grpc-status:0\r", b"grpc-status:0\r\r\n", b"\r", b"\n", b"\r\n", b"\r\n\r\n", b"", b"grpc-status", b":", b"grpc-status:0\n\rx:y\r\n", b"grpc-status:0\r\n\0", b"a:b\r\n\rc:d", b"grpc-status: 0\r\nx:\r",
+    ] {
+        let raw = wire::encode_frame(0x80, block);
+        for drip in [false, true] {
+            out.push(Case { msgs: vec![], trailers: trailer_menu()[0].clone(), space: false, truncate: None, bad_flag: None, free: false, drip, raw: Some(raw.clone()), segments: 1, fixed: None });
         }
     }
     // messages beyond the layer's 8 KiB buffer, alone and behind small ones, the body cut at one
@@ -360,7 +391,7 @@ pub fn property(tier: Tier) -> Property {
     let a = Section::new(
         "client-body",
         Config { max_bound: tier.q(2, 3), hang_secs: 20, ..Default::default() },
-        "cases: grpc-web response bodies built by the independent encoder: 0..2 message frames (flags 0/1, payloads 0..3 bytes; and a 9000-byte message, beyond the layer's 8 KiB buffer, alone / behind 1..2 small ones, the body cut once at 20 positions around the prefix and the 8192nd byte or into equal blocks) + one 0x80 trailers frame over a trailer-map menu (values with ':' and spaces, repeated names, empty values, opaque non-UTF-8 bytes; 'k:v' and 'k: v' spellings), plus truncation at every byte, an invalid flag byte at every frame start, and bodies ending inside a frame whose prefix declares 2^31-1 .. 2^32-1 bytes; environment: every chunking (all compositions for bodies <= 21/24 bytes, otherwise <= bound cuts/Pending deviations) plus byte-by-byte drip through GrpcWebClientService over a scripted inner service; oracle: DATA concatenates to exactly the message-frame bytes, then exactly one trailers frame equal as a multimap to what was sent, then None; truncated inside a frame / bad flag => an error and never a clean end; no busy loop. Non-trivial = body delivered in more than one chunk, truncated or corrupted.",
+        "cases: grpc-web response bodies built by the independent encoder: 0..2 message frames (flags 0/1, payloads 0..3 bytes; a trailers frame whose block has stray CR / LF / NUL bytes, empty lines or no colon (only termination is judged); 3..4 frames of unequal sizes 0..11 bytes under every pair of cuts and in equal blocks of 2..17 (thorough 40) bytes; and a 9000-byte message, beyond the layer's 8 KiB buffer, alone / behind 1..2 small ones, the body cut once at 20 positions around the prefix and the 8192nd byte or into equal blocks) + one 0x80 trailers frame over a trailer-map menu (values with ':' and spaces, repeated names, empty values, opaque non-UTF-8 bytes; 'k:v' and 'k: v' spellings), plus truncation at every byte, an invalid flag byte at every frame start, and bodies ending inside a frame whose prefix declares 2^31-1 .. 2^32-1 bytes; environment: every chunking (all compositions for bodies <= 21/24 bytes, otherwise <= bound cuts/Pending deviations) plus byte-by-byte drip through GrpcWebClientService over a scripted inner service; oracle: DATA concatenates to exactly the message-frame bytes, then exactly one trailers frame equal as a multimap to what was sent, then None; truncated inside a frame / bad flag => an error and never a clean end; no busy loop. Non-trivial = body delivered in more than one chunk, truncated or corrupted.",
         cases(tier),
         |c: &Case| format!("msgs={:?} trailers={:?} space={} truncate={:?} bad_flag={:?} free={} drip={} raw={:?} segments={} fixed={:?}", c.msgs.iter().map(|(f, p)| if p.len() > 16 { format!("({f}, {} bytes)", p.len()) } else { format!("({f}, {p:?})") }).collect::<Vec<_>>(), show(&c.trailers), c.space, c.truncate, c.bad_flag, c.free, c.drip, c.raw.as_ref().map(|r| hex(r)), c.segments, c.fixed),
         body,
